@@ -14,6 +14,7 @@ struct ent {
 	void * p;		/* NULL = empty, TOMB = deleted */
 	size_t n;
 	uint64_t seq;
+	size_t shift;		/* p - shift is what the real allocator gave */
 };
 #define TOMB ((void *)(uintptr_t)1)
 
@@ -31,6 +32,8 @@ static int failpersist = 0;
 static int failall = 0;
 static uint64_t nfailed = 0;
 static void (* freehook)(void *, size_t) = NULL;
+static int misalign = 0;	/* hand out blocks that are 8 mod 16 */
+#define MISALIGN_SHIFT 8
 
 static size_t
 hashp(const void * p)
@@ -43,7 +46,7 @@ hashp(const void * p)
 	return ((size_t)x);
 }
 
-static void tab_insert(void * p, size_t n, uint64_t seq);
+static void tab_insert(void * p, size_t n, uint64_t seq, size_t shift);
 
 static void
 tab_grow(void)
@@ -62,12 +65,12 @@ tab_grow(void)
 	livebytes = 0;
 	for (i = 0; i < oldsz; i++)
 		if (old[i].p != NULL && old[i].p != TOMB)
-			tab_insert(old[i].p, old[i].n, old[i].seq);
+			tab_insert(old[i].p, old[i].n, old[i].seq, old[i].shift);
 	__real_free(old);
 }
 
 static void
-tab_insert(void * p, size_t n, uint64_t seq)
+tab_insert(void * p, size_t n, uint64_t seq, size_t shift)
 {
 	size_t i;
 
@@ -81,6 +84,7 @@ tab_insert(void * p, size_t n, uint64_t seq)
 	tab[i].p = p;
 	tab[i].n = n;
 	tab[i].seq = seq;
+	tab[i].shift = shift;
 	nlive++;
 	livebytes += n;
 }
@@ -135,9 +139,18 @@ __wrap_malloc(size_t n)
 		errno = ENOMEM;
 		return (NULL);
 	}
+	if (misalign && n <= SIZE_MAX - MISALIGN_SHIFT) {
+		/* The block still ends where the real one ends. */
+		p = __real_malloc(n + MISALIGN_SHIFT);
+		if (p != NULL) {
+			p = (char *)p + MISALIGN_SHIFT;
+			tab_insert(p, n, ++seqctr, MISALIGN_SHIFT);
+		}
+		return (p);
+	}
 	p = __real_malloc(n);
 	if (p != NULL)
-		tab_insert(p, n, ++seqctr);
+		tab_insert(p, n, ++seqctr, 0);
 	return (p);
 }
 
@@ -150,9 +163,17 @@ __wrap_calloc(size_t a, size_t b)
 		errno = ENOMEM;
 		return (NULL);
 	}
+	if (misalign && b != 0 && a <= (SIZE_MAX - MISALIGN_SHIFT) / b) {
+		p = __real_calloc(1, a * b + MISALIGN_SHIFT);
+		if (p != NULL) {
+			p = (char *)p + MISALIGN_SHIFT;
+			tab_insert(p, a * b, ++seqctr, MISALIGN_SHIFT);
+		}
+		return (p);
+	}
 	p = __real_calloc(a, b);
 	if (p != NULL)
-		tab_insert(p, a * b, ++seqctr);
+		tab_insert(p, a * b, ++seqctr, 0);
 	return (p);
 }
 
@@ -173,6 +194,39 @@ __wrap_realloc(void * old, size_t n)
 		if (freehook != NULL && n < oldn)
 			freehook((char *)old + n, oldn - n);
 	}
+	if (misalign || (e != NULL && e->shift != 0)) {
+		/*
+		 * Shifted blocks (the old one, the new one or both) cannot go
+		 * through the real realloc: malloc + copy + free.
+		 */
+		size_t shift = misalign ? MISALIGN_SHIFT : 0;
+		size_t oshift = (e != NULL) ? e->shift : 0;
+
+		if (old != NULL && e == NULL)
+			goto plain;		/* not ours: leave it alone */
+		if (n == 0 && old != NULL) {
+			/* realloc(p, 0) releases p (hook ran above). */
+			tab_remove(e);
+			__real_free((char *)old - oshift);
+			return (NULL);
+		}
+		if (n > SIZE_MAX - shift)
+			return (NULL);
+		p = __real_malloc(n + shift);
+		if (p == NULL)
+			return (NULL);
+		p = (char *)p + shift;
+		if (old != NULL) {
+			memcpy(p, old, oldn < n ? oldn : n);
+			if (freehook != NULL && n >= oldn)
+				freehook(old, oldn);
+			tab_remove(e);
+			__real_free((char *)old - oshift);
+		}
+		tab_insert(p, n, ++seqctr, shift);
+		return (p);
+	}
+plain:
 	if (e != NULL && freehook != NULL && n >= oldn) {
 		/* Emulate with malloc+copy so the hook sees the old block
 		   before it is given back. */
@@ -183,7 +237,7 @@ __wrap_realloc(void * old, size_t n)
 		freehook(old, oldn);
 		tab_remove(e);
 		__real_free(old);
-		tab_insert(p, n, ++seqctr);
+		tab_insert(p, n, ++seqctr, 0);
 		return (p);
 	}
 	p = __real_realloc(old, n);
@@ -195,7 +249,7 @@ __wrap_realloc(void * old, size_t n)
 			tab_remove(e);
 	}
 	if (p != NULL)
-		tab_insert(p, n, ++seqctr);
+		tab_insert(p, n, ++seqctr, 0);
 	return (p);
 }
 
@@ -203,6 +257,7 @@ void
 __wrap_free(void * p)
 {
 	struct ent * e;
+	size_t shift = 0;
 
 	if (p == NULL)
 		return;
@@ -210,9 +265,10 @@ __wrap_free(void * p)
 	if (e != NULL) {
 		if (freehook != NULL)
 			freehook(p, e->n);
+		shift = e->shift;
 		tab_remove(e);
 	}
-	__real_free(p);
+	__real_free((char *)p - shift);
 }
 
 char *
@@ -274,6 +330,8 @@ wa_foreach_live(void (* fn)(void *, size_t, void *), void * cookie)
 			fn(tab[i].p, tab[i].n, cookie);
 }
 
+void wa_misalign(int on) { misalign = on; }
+
 void
 wa_set_free_hook(void (* hook)(void *, size_t))
 {
@@ -316,22 +374,24 @@ wa_ossl_malloc(size_t n)
 		return (NULL);
 	p = __real_malloc(n);
 	if (p != NULL)
-		tab_insert(p, n, ++seqctr);
+		tab_insert(p, n, ++seqctr, 0);
 	return (p);
 }
 
 void *
 wa_ossl_realloc(void * old, size_t n)
 {
-	int en = enabled;
+	int en = enabled, mis = misalign;
 	void * p;
 
 	/* A refused realloc leaves the old block untouched (and unscanned). */
 	if (ossl_refuse())
 		return (NULL);
 	enabled = 0;
+	misalign = 0;		/* OpenSSL's blocks are never shifted */
 	p = __wrap_realloc(old, n);
 	enabled = en;
+	misalign = mis;
 	return (p);
 }
 
